@@ -181,21 +181,34 @@ Qed.
 Lemma is_zero_parts_fields p q : pint p = pint q -> pfrac p = pfrac q -> is_zero_parts p = is_zero_parts q.
 Proof. unfold is_zero_parts. intros -> ->. reflexivity. Qed.
 
-Lemma negzero_clause neg ip fp :
+Lemma negzero_clause fx neg ip fp :
   let p := {| pneg := neg; pint := ip; pfrac := fp |} in
-  let p' := if true && neg && is_zero_parts p then {| pneg := false; pint := ip; pfrac := fp |} else p in
+  let p' := if fx && neg && is_zero_parts p then {| pneg := false; pint := ip; pfrac := fp |} else p in
+  fx = true \/ neg && is_zero_parts p = false ->
   negb (pneg p' && is_zero_parts p') = true.
 Proof.
   cbv zeta. unfold is_zero_parts. cbn [pint pfrac andb].
   set (z := match ip with [0] => match fp with [] => true | _ => false end | _ => false end).
-  destruct neg, z eqn:E; cbn [andb pneg pint pfrac negb]; try reflexivity.
-  subst z. rewrite E. reflexivity.
+  intros [-> | H].
+  - destruct neg, z eqn:E; cbn [andb pneg pint pfrac negb]; try reflexivity.
+    subst z. rewrite E. reflexivity.
+  - destruct fx, neg, z eqn:E; cbn [andb pneg pint pfrac negb] in *; try reflexivity; try discriminate;
+      subst z; rewrite E; reflexivity.
 Qed.
 
-Theorem format6_shape : forall c x, cfg_ok c = true -> shape_ok (fmt_parts c x) = true.
+(** a printed zero means the rounded integer is zero *)
+Lemma is_zero_parts_scaled c x : is_zero_parts (fmt_parts c x) = true -> scaled6 x = 0.
 Proof.
-  intros c x Hc. unfold cfg_ok in Hc. apply andb_prop in Hc. destruct Hc as [Hc Hfix].
-  apply andb_prop in Hc. destruct Hc as [_ Hstrip].
+  intros H. rewrite <- (format6_value c x). unfold scaled_value, is_zero_parts in *.
+  destruct (pint (fmt_parts c x)) as [|[|?] [|? ?]]; try discriminate.
+  destruct (pfrac (fmt_parts c x)); try discriminate. reflexivity.
+Qed.
+
+(** General form: the shape holds for every pipeline that strips zeros at 6 places, on every input that is
+    not carved out (nothing is carved out when the '-0' repair is present). *)
+Theorem format6_shape_gen : forall c x, cfg_base_ok c = true -> carved c x = false -> shape_ok (fmt_parts c x) = true.
+Proof.
+  intros c x Hc Hcv. unfold cfg_base_ok in Hc. apply andb_prop in Hc. destruct Hc as [_ Hstrip].
   unfold shape_ok. destruct (fmt_parts_fields c x) as [Ei Ef]. rewrite Ei, Ef.
   destruct (to_digits_shape (scaled6 x / 1000000)) as (D1 & D2 & _).
   unfold frac_of. rewrite Hstrip.
@@ -205,7 +218,39 @@ Proof.
     by (symmetry; apply Nat.leb_le; exact L).
   cbn [andb].
   (* the '-0' clause *)
-  unfold fmt_parts. cbv zeta. rewrite Hfix, Hstrip. apply negzero_clause.
+  assert (Hz : forall b, is_zero_parts {| pneg := b; pint := to_digits (scaled6 x / 1000000);
+                                          pfrac := rstrip0 (fixed 6 (scaled6 x mod 1000000)) |} = true -> scaled6 x = 0).
+  { intros b Hb. apply (is_zero_parts_scaled c x). rewrite <- Hb. apply is_zero_parts_fields; cbn [pint pfrac].
+    - exact Ei.
+    - rewrite Ef. unfold frac_of. rewrite Hstrip. reflexivity. }
+  unfold fmt_parts. cbv zeta. rewrite Hstrip. fold (sign_flag c x).
+  apply negzero_clause.
+  unfold carved in Hcv.
+  destruct (neg_zero_fix c); [left; reflexivity|right].
+  cbn [negb andb] in Hcv.
+  destruct (sign_flag c x); [|reflexivity]. cbn [andb] in *.
+  match goal with |- ?z = false => destruct z eqn:Ez; [|reflexivity] end.
+  apply Hz in Ez. rewrite Ez in Hcv. discriminate.
+Qed.
+
+Lemma cfg_ok_not_carved c x : cfg_ok c = true -> cfg_base_ok c = true /\ carved c x = false.
+Proof.
+  unfold cfg_ok, cfg_base_ok, carved. intros H. apply andb_prop in H. destruct H as [H1 H2].
+  rewrite H1, H2. split; reflexivity.
+Qed.
+
+Theorem format6_shape : forall c x, cfg_ok c = true -> shape_ok (fmt_parts c x) = true.
+Proof. intros c x H. destruct (cfg_ok_not_carved c x H). apply format6_shape_gen; assumption. Qed.
+
+(** the carved-out class is exactly where the pinned pipeline prints "-0" *)
+Theorem carved_prints_negative_zero : forall c x, cfg_base_ok c = true -> carved c x = true ->
+  format6 c x = [45; 48].
+Proof.
+  intros c x Hc Hcv. unfold cfg_base_ok in Hc. apply andb_prop in Hc. destruct Hc as [_ Hstrip].
+  unfold carved in Hcv. apply andb_prop in Hcv. destruct Hcv as [Hcv Hz]. apply andb_prop in Hcv.
+  destruct Hcv as [Hfix Hs]. apply N.eqb_eq in Hz. apply negb_true_iff in Hfix.
+  unfold format6, fmt_parts. cbv zeta. fold (sign_flag c x). rewrite Hfix, Hs, Hstrip, Hz.
+  reflexivity.
 Qed.
 
 Theorem format6_shape_refuted :
